@@ -21,7 +21,7 @@ theorem fieldType_is_nativeType (alias : String) (c : ColumnSchema) (enumTypes :
   | enum => cases enumTypes <;> simp [GoType.erase, atomicGo_erase]
   | map => simp [GoType.erase, atomicGo_erase]
   | set =>
-    by_cases hk : (enumTypes && !c.type.key.enum.isEmpty) = true <;>
+    by_cases hk : (enumTypes && c.type.key.enumSet) = true <;>
     by_cases h1 : (c.type.minV = 0 && c.type.maxV = 1) = true <;>
     by_cases h2 : (c.type.minV = 1 && c.type.maxV = 1) = true <;>
     simp only [hk, h1, h2, if_true, if_false, GoType.erase, atomicGo_erase] <;> simp_all [GoType.erase, atomicGo_erase]
